@@ -1965,16 +1965,17 @@ func (iv *Inv) Discover(roots []*ssa.Function, rule, label string) {
 // vettedSemantic: numeric vetting arguments, keyed by class, operation and the semantic signature of the operand
 // (semsig.go). One line of reason each; shared by C10 and C20.
 var vettedSemantic = map[string]string{
+	"panic | error of x/cfeminter/keeper.Keeper.Mint()":                                                                                                                        "Mint fails only if the current period is missing from the parameters (excluded by C10.currentperiod) or the bank refuses to mint/forward between registered module accounts (permissions checked by g3); raising it ends the block, which C01.abort requires",
 	"coinsub sub | ops{add,sub} from{<sdk/types.DecCoins>,State.Remains,nil,types.BankKeeper.GetAllBalances()}":                                                                "minus what this sub-distributor already swept into the main account (or took over from an internal state, whose remains were zeroed in the list at the same time): the balance grew by exactly that amount, so the difference stays the un-booked part (C03)",
 	"coinsub sub | ops{add} from{State.Remains,nil,types.BankKeeper.GetAllBalances()}":                                                                                         "main balance minus recorded remains: non-negative exactly when the books match (C03); C03.order guards the one structural way to break it",
 	"coinsub sub | ops{mul,quo,trunc} from{BaseVestingAccount.OriginalVesting,Coin.Amount,Coin.Denom,types.Coins.AmountOf(),types.ContinuousVestingAccount.GetVestingCoins()}": "OriginalVesting minus amount*OV/vesting (truncated): amount <= locked <= vesting by the IsAllLTE guard, so the difference is <= OV (numeric part of C07)",
 	"coinsub sub | ops{mul,sub} from{<sdk/types.DecCoins>,DestinationShare.Share,nil}":                                                                                         "share*inflow is subtracted from the remainder; shares are validated to sum below 1, so the remainder stays non-negative (numeric argument of C03/C04, not decided here) / burn share: same argument as above (burn share + shares < 1 by CheckIfSharesSumIsBetween0And1)",
 	"coinsub sub | ops{} from{BaseVestingAccount.OriginalVesting,Coin.Denom,const:1}":                                                                                          "the one-unit compensation is subtracted only when less than the requested amount was unlocked, which implies OriginalVesting is still positive (numeric part of C07)",
-	"int64 Int64 | ops{} from{Coin.Amount}": "the deferred gauge is registered only under toWithdraw.IsInt64(); the named result it reads is NewCoin(denom, toWithdraw) on the only return that follows",
-	"newcoin NewCoin | ops{add,sub} from{VestingPool.InitiallyLocked,VestingPool.Sent,VestingPool.Withdrawn,types.ZeroInt()}":                                           "sum of GetCurrentlyLocked of matured pools: non-negative by the pool ledger invariant (C05: withdrawn+sent <= initially locked)",
-	"newcoin NewCoin | ops{mul,quo,trunc} from{BaseVestingAccount.OriginalVesting,Coin.Amount,types.Coins.AmountOf(),types.ContinuousVestingAccount.GetVestingCoins()}": "amount = truncated quotient of non-negative quantities (numeric part of C07); denomination is that of a validated coin",
-	"newcoin NewCoin | ops{mul,sub,trunc} from{<math.Int>,<sdk/types.Dec>}":                                                                                             "amount*(1-free) truncated with 0 <= free <= 1 (vesting-type validation) and amount validated non-negative",
-	"quo quo | ops{sub} from{time.Time.UnixMilli()}":                                                                                                                    "divisor = period length in ms; validation orders end strictly after start and C10 bounds periods to >= 1 s",
-	"quo quo | ops{} from{time.Time.Sub()}":                                                                                                                             "divisor = period length in ns; same argument / divisor = period length in ns; validation orders end strictly after start",
-	"quo quo | ops{} from{types.Coins.AmountOf(),types.ContinuousVestingAccount.GetVestingCoins()}":                                                                     "divisor = still-vesting amount of the denomination; under coin.Amount > 0 and amount <= locked <= vesting it is positive",
+	"int64 Int64 | ops{} from{Coin.Amount}":                                                                                                                                    "the deferred gauge is registered only under toWithdraw.IsInt64(); the named result it reads is NewCoin(denom, toWithdraw) on the only return that follows",
+	"newcoin NewCoin | ops{add,sub} from{VestingPool.InitiallyLocked,VestingPool.Sent,VestingPool.Withdrawn,types.ZeroInt()}":                                                  "sum of GetCurrentlyLocked of matured pools: non-negative by the pool ledger invariant (C05: withdrawn+sent <= initially locked)",
+	"newcoin NewCoin | ops{mul,quo,trunc} from{BaseVestingAccount.OriginalVesting,Coin.Amount,types.Coins.AmountOf(),types.ContinuousVestingAccount.GetVestingCoins()}":        "amount = truncated quotient of non-negative quantities (numeric part of C07); denomination is that of a validated coin",
+	"newcoin NewCoin | ops{mul,sub,trunc} from{<math.Int>,<sdk/types.Dec>}":                                                                                                    "amount*(1-free) truncated with 0 <= free <= 1 (vesting-type validation) and amount validated non-negative",
+	"quo quo | ops{sub} from{time.Time.UnixMilli()}":                                                                                                                           "divisor = period length in ms; validation orders end strictly after start and C10 bounds periods to >= 1 s",
+	"quo quo | ops{} from{time.Time.Sub()}":                                                                                                                                    "divisor = period length in ns; same argument / divisor = period length in ns; validation orders end strictly after start",
+	"quo quo | ops{} from{types.Coins.AmountOf(),types.ContinuousVestingAccount.GetVestingCoins()}":                                                                            "divisor = still-vesting amount of the denomination; under coin.Amount > 0 and amount <= locked <= vesting it is positive",
 }
